@@ -52,9 +52,9 @@ def build_repo(log):
     stamp = os.path.join(BUILD, "third_party.sha256")
     cur = third_party_hash()
     if os.path.exists(os.path.join(IBEX_B, "build.ninja")) and (not os.path.exists(stamp) or open(stamp).read().strip() != cur):
-        if os.path.exists(stamp):          # changed third-party sources: configure and build from scratch
-            shutil.rmtree(IBEX_B, ignore_errors=True)
-            log.append(("third-party sources changed: full rebuild", 0))
+        # changed (or unknown) third-party sources: configure and build from scratch
+        shutil.rmtree(IBEX_B, ignore_errors=True)
+        log.append(("third-party sources changed: full rebuild", 0))
     if not os.path.exists(os.path.join(IBEX_B, "build.ninja")):
         rc, out = sh(["cmake", "-G", "Ninja", "-S", REPO, "-B", IBEX_B, "-DCMAKE_BUILD_TYPE=Release",
                       "-DCMAKE_CXX_FLAGS=-Wno-error -DIBEX_VERIF_HOOKS", "-DINTERVAL_LIB=gaol", "-DLP_LIB=none"])
